@@ -9,6 +9,7 @@ import (
 	"path/filepath"
 	"sort"
 	"strconv"
+	"strings"
 	"sync"
 	"time"
 	"unicode/utf8"
@@ -18,7 +19,8 @@ func init() { register("C14", checkC14) }
 
 // C14: the command line is a faithful wrapper.
 //
-// MC_Cli (TLC) enumerates the full product of command-line shapes of JqCli x
+// MC_Cli (TLC) enumerates the full product of command-line shapes of JqCli
+// (among them: two file arguments that are the same path) x
 // the possible library results and emits for each what the binary must show.
 // Every shape is materialised with a pool of (program, selectors, inputs)
 // triples in a temp dir and run on the compiled binary; the library result is
@@ -30,13 +32,20 @@ func init() { register("C14", checkC14) }
 // MC_CliBytes (TLC) adds the texts the command line carries: every byte
 // sequence up to a bound over the bytes a front end might treat specially x
 // every channel (program text in a string / regex literal / between tokens /
-// in a comment, selector, file name, input bytes, document strings and keys)
-// x the command-line shapes of that channel.  Each is rendered to a triple
-// and goes through the same comparisons: the wrapper must be a pipe.
+// in a comment, at its very beginning / end, selector, file name, input bytes
+// inside a string / between values / at the very beginning / end, document
+// strings and keys, the raw last write of the program at the end of the run /
+// before exit / before an error) x the command-line shapes of that channel.
+// A text is a sequence of units: a byte, or a whole byte-order mark.  Each is
+// rendered to a triple and goes through the same comparisons: the wrapper
+// must be a pipe.  For text runs the model also emits stdout as ONE byte
+// stream (JqCli.StreamOf): the text, "<lib>", "<json>" in the order of the
+// writes; the binary's stdout is compared with that stream.
 
 type c14Cfg struct {
 	ProgVia string `json:"progVia"`
 	NFiles  int    `json:"nfiles"`
+	Same    bool   `json:"same"` // both file arguments are the same path
 	NSel    int    `json:"nsel"`
 	Out     string `json:"out"`
 	BadProg bool   `json:"badProg"`
@@ -57,6 +66,7 @@ type c14Vec struct {
 	Diag      bool     `json:"diag"`
 	Stdout    []string `json:"stdout"`
 	Outfile   string   `json:"outfile"`
+	Stream    []string `json:"stream"` // MC_CliBytes: stdout as bytes, "<lib>", "<json>"
 }
 
 type c14Prog struct {
@@ -99,6 +109,9 @@ var c14Progs = []c14Prog{
 	{Src: `BEGINFILE { print "root", $ } ENDFILE { print "was", $ }`, Stateless: true, ReadsBF: true},
 	{Src: "# totals\n{ t += $.x }\nEND { print \"total\", t }\n"},
 	{Src: `$.x { print $index, $.x } !$.x`, Stateless: true},
+	// output that does not end in a newline
+	{Src: `{ printf("%s;", $.x) }`, Stateless: true},
+	{Src: "{ s += $.x; print $.x }\nEND { printf(\"sum=%s\", s) }"},
 }
 
 var c14Inputs = []c14Input{
@@ -208,6 +221,27 @@ func c14TextTriple(ch string, text []byte) *c14Triple {
 		tr.I.Docs[0] = doc(map[string]any{t: []any{map[string]any{"x": 1}, map[string]any{"x": 2}}, "other": []any{}})
 		tr.I.Sels[0] = `$["` + t + `"]`
 		tr.P = c14Prog{Src: `{ print $.x; $.seen = true }`}
+	case "prog-head":
+		tr.P = c14Prog{Src: t + `{ print $.x }`}
+	case "prog-tail":
+		tr.P = c14Prog{Src: `{ print $.x } END { print "end" }` + t}
+	case "input-head":
+		tr.I.Docs[0] = t + `{"x": 1} {"x": 2}`
+		tr.I.Docs[1] = t + `{"x": 3}`
+		tr.P = c14Prog{Src: `{ print $.x; $.seen = true }`}
+	case "input-tail":
+		tr.I.Docs[0] = `{"x": 1} {"x": 2}` + t
+		tr.P = c14Prog{Src: `{ print $.x; $.seen = true }`}
+	case "out-end":
+		// a complete line, then the text as the last bytes the program writes
+		tr.I.Docs[0] = doc([]any{map[string]any{"x": "line\n"}, map[string]any{"x": t}})
+		tr.P = c14Prog{Src: `{ printf("%s", $.x); $.y = 1 }`}
+	case "out-exit":
+		tr.I.Docs[0] = doc([]any{map[string]any{"x": "line\n"}, map[string]any{"x": t, "last": true}, map[string]any{"x": "never"}})
+		tr.P = c14Prog{Src: `{ printf("%s", $.x); $.y = 1; if ($.last) exit }`}
+	case "out-err":
+		tr.I.Docs[0] = doc([]any{map[string]any{"x": "line\n"}, map[string]any{"x": t, "last": true}, map[string]any{"x": "never"}})
+		tr.P = c14Prog{Src: `{ printf("%s", $.x); if ($.last) print 1 / 0 }`}
 	case "fname":
 		tr.I.Names[0] = "in" + t + ".json"
 		tr.P = c14Prog{Src: `{ print $file, $.x }`, UsesFile: true}
@@ -216,6 +250,8 @@ func c14TextTriple(ch string, text []byte) *c14Triple {
 	}
 	return tr
 }
+
+var c14RawOut = map[string]bool{"out-end": true, "out-exit": true, "out-err": true}
 
 // what an -o FILE may hold before the run: longer than any document written by the pool
 var c14StaleDoc = bytes.Repeat([]byte("{\"stale\": [0, 1, 2, 3, 4, 5, 6, 7, 8, 9]}\n"), 100)
@@ -251,6 +287,9 @@ func c14Exec(c *Ctx, base string, n int, r *c14Run) {
 		}
 	}
 	if k.ProgVia == "inline" {
+		if strings.HasPrefix(r.Prog, "-") {
+			args = append(args, "--") // the way to give an argument that begins with `-`
+		}
 		args = append(args, r.Prog)
 	}
 	var stdin []byte
@@ -258,6 +297,10 @@ func c14Exec(c *Ctx, base string, n int, r *c14Run) {
 		stdin = []byte(r.T.I.Docs[r.Order[0]])
 	}
 	for i := 0; i < k.NFiles; i++ {
+		if k.Same && i > 0 {
+			args = append(args, args[len(args)-1]) // the same path once more
+			continue
+		}
 		name := c14FileName(&r.T.I, r.Order[i])
 		if k.BadAt == i+1 {
 			switch {
@@ -301,7 +344,7 @@ func c14LibJob(r *c14Run, failAt int) Job {
 	for i := 0; i < r.Cfg.NFiles; i++ {
 		data := []byte(r.T.I.Docs[r.Order[i]])
 		name := c14FileName(&r.T.I, r.Order[i])
-		if failAt == i+1 {
+		if failAt == i+1 || (failAt > 0 && r.Cfg.Same) {
 			j.IO = true
 			j.Files = append(j.Files, FileIn{Name: "unreadable.d", Fault: "ioerr"})
 			continue
@@ -336,6 +379,8 @@ func checkC14(c *Ctx) {
 	c.Assume("file / selector order: output blocks are compared for programs whose output for (A, B) is the output for A followed by that for B (no BEGIN/END, no state carried over), on runs that succeed; selector order on inputs with one value per file")
 	c.Assume("an unreadable input is a mode-000 file (inconclusive when running as root makes it readable) and a directory given as input file; the directory opens and fails on the first read, so it counts only if the run gets as far as reading it (oracle: the library with a reader failing at that position; an exit before that ends the run successfully)")
 	c.Assume("texts: a text placed in the program, a selector, a file name or the input may make it malformed; then the binary must fail as the library does on the same text (error messages are not compared); NUL and / are not among the bytes (not expressible in an argument / a file name); selectors and file names that are not valid UTF-8 are skipped (the harness hands them to the library worker as JSON strings)")
+	c.Assume("an inline program whose text begins with `-` is given after `--` (the command-line convention for such an argument)")
+	c.Assume("raw output texts reach the program through a JSON string of the input: a text that is not valid UTF-8 is altered there, and then only the library's bytes are the oracle, not the model's literal bytes")
 	c.Assume("-dbg-ast, -dbg-lex, -profile, -version are not exercised; stdin is always a pipe")
 	pool := c.Pool()
 	rng := rand.New(rand.NewSource(c.Seed*104729 + 5))
@@ -343,7 +388,7 @@ func checkC14(c *Ctx) {
 	// ---- the model's table
 	table := map[string]map[string]*c14Vec{}
 	c.TLC(TLCOpt{Module: "MC_Cli", Workers: 4, Heap: "2g",
-		Cfg: cfgText("SPECIFICATION Spec", "INVARIANT CliTypeOK", "INVARIANT StatusIffOk", "INVARIANT DiagIffFail", "INVARIANT StdoutShape",
+		Cfg: cfgText("SPECIFICATION Spec", "INVARIANT CliTypeOK", "INVARIANT StatusIffOk", "INVARIANT DiagIffFail", "INVARIANT StdoutShape", "INVARIANT ByteOrder",
 			"INVARIANT CallOrder", "INVARIANT OpenOrder", "INVARIANT AgreesWithResult", "INVARIANT Laws", "INVARIANT Complete", "INVARIANT Vec"),
 		OnVec: func(raw []byte) {
 			v := &c14Vec{}
@@ -354,8 +399,8 @@ func checkC14(c *Ctx) {
 			}
 			table[k][v.Lib.Outcome+"/"+v.Lib.JSON] = v
 		}})
-	if len(table) != 243 {
-		infra("C14: expected 243 command-line shapes from MC_Cli, got %d", len(table))
+	if len(table) != 324 {
+		infra("C14: expected 324 command-line shapes from MC_Cli, got %d", len(table))
 	}
 
 	// ---- the pool of triples
@@ -388,7 +433,7 @@ func checkC14(c *Ctx) {
 		nTriples = len(triples)
 	}
 	sel := triples[:nTriples]
-	bounds := map[string]any{"command_line_shapes": 243, "triples": nTriples, "triples_for_fault_shapes": nFaultTriples,
+	bounds := map[string]any{"command_line_shapes": 324, "triples": nTriples, "triples_for_fault_shapes": nFaultTriples,
 		"programs": len(c14Progs), "input_sets": len(c14Inputs)}
 	c.Set("bounds", bounds)
 
@@ -411,6 +456,9 @@ func checkC14(c *Ctx) {
 		for ti, t := range ts {
 			base := fmt.Sprintf("%s|%d", k, ti)
 			order := []int{0, 1}
+			if cfg.Same {
+				order = []int{0, 0}
+			}
 			add(&c14Run{Key: base, Cfg: cfg, T: t, Prog: t.P.Src, Sels: selsOf(t, cfg.NSel), Order: order})
 			if cfg.BadAt > 0 && cfg.BadKind == "unreadable" {
 				add(&c14Run{Key: base + "|dir", Cfg: cfg, T: t, Prog: t.P.Src, Sels: selsOf(t, cfg.NSel), Order: order, Dir: true})
@@ -427,7 +475,12 @@ func checkC14(c *Ctx) {
 			// file order
 			if cfg.NFiles == 2 && cfg.Out == "none" && cfg.ProgVia == "inline" && t.P.Stateless {
 				c1 := cfg
-				c1.NFiles = 1
+				c1.NFiles, c1.Same = 1, false
+				if cfg.Same {
+					// the path named twice: its output block, twice
+					add(&c14Run{Key: base + "|f0", Cfg: c1, T: t, Prog: t.P.Src, Sels: selsOf(t, cfg.NSel), Order: []int{0}})
+					continue
+				}
 				add(&c14Run{Key: base + "|f0", Cfg: c1, T: t, Prog: t.P.Src, Sels: selsOf(t, cfg.NSel), Order: []int{0}})
 				add(&c14Run{Key: base + "|f1", Cfg: c1, T: t, Prog: t.P.Src, Sels: selsOf(t, cfg.NSel), Order: []int{1}})
 				add(&c14Run{Key: base + "|f10", Cfg: cfg, T: t, Prog: t.P.Src, Sels: selsOf(t, cfg.NSel), Order: []int{1, 0}})
@@ -455,7 +508,7 @@ func checkC14(c *Ctx) {
 	nOpaque := 0
 	c.TLC(TLCOpt{Module: "MC_CliBytes", Workers: 8, Heap: "4g",
 		Cfg: cfgText("SPECIFICATION Spec", fmt.Sprintf("CONSTANT MaxLen = %d", maxLen), "INVARIANT CliTypeOK", "INVARIANT StatusIffOk", "INVARIANT DiagIffFail",
-			"INVARIANT StdoutShape", "INVARIANT CallOrder", "INVARIANT OpenOrder", "INVARIANT Transparent", "INVARIANT AgreesWithResult",
+			"INVARIANT StdoutShape", "INVARIANT ByteOrder", "INVARIANT CallOrder", "INVARIANT OpenOrder", "INVARIANT Transparent", "INVARIANT AgreesWithResult",
 			"INVARIANT Laws", "INVARIANT Complete", "INVARIANT Vec"),
 		OnVec: func(raw []byte) {
 			v := &struct {
@@ -476,7 +529,11 @@ func checkC14(c *Ctx) {
 				if textRuns[tk] == nil {
 					textOrder = append(textOrder, tk)
 				}
-				textRuns[tk] = append(textRuns[tk], &c14Run{Key: key, Cfg: v.Cfg, Chan: v.Chan, Text: text, Order: []int{0, 1}, Rows: textRows[key]})
+				order := []int{0, 1}
+				if v.Cfg.Same {
+					order = []int{0, 0}
+				}
+				textRuns[tk] = append(textRuns[tk], &c14Run{Key: key, Cfg: v.Cfg, Chan: v.Chan, Text: text, Order: order, Rows: textRows[key]})
 			}
 			row := v.c14Vec
 			textRows[key][v.Lib.Outcome+"/"+v.Lib.JSON] = &row
@@ -490,7 +547,7 @@ func checkC14(c *Ctx) {
 		}
 		return textOrder[i].text < textOrder[j].text
 	})
-	bounds["texts"] = fmt.Sprintf("every byte sequence of length <= %d over 13 bytes (%% d CR LF TAB blank \" \\ C3 A9 , - <) x 10 channels x the command-line shapes of the channel", maxLen)
+	bounds["texts"] = fmt.Sprintf("every sequence of <= %d units over 13 bytes (%% d CR LF TAB blank \" \\ C3 A9 , - <), on the channels that load bytes from a file or pipe also the byte-order marks EF BB BF / FE FF / FF FE as units, x 17 channels x the command-line shapes of the channel", maxLen)
 	c.Set("bounds", bounds)
 	nTextRuns := 0
 	for _, tk := range textOrder {
@@ -683,6 +740,35 @@ func checkC14(c *Ctx) {
 				wantOut = append(wantOut, lib.JS...)
 			}
 		}
+		if r.Chan != "" {
+			// the model's byte stream: literal bytes where the text is what the program writes
+			var lit, stream []byte
+			for _, tok := range exp.Stream {
+				switch tok {
+				case "<lib>":
+					stream = append(stream, lib.Stdout...)
+				case "<json>":
+					stream = append(stream, lib.JS...)
+				default:
+					b := c14Bytes([]string{tok})
+					lit, stream = append(lit, b...), append(stream, b...)
+				}
+			}
+			if c14RawOut[r.Chan] {
+				// the pool program writes one complete line before the text
+				stream = append([]byte("line\n"), stream...)
+				if bytes.Equal(append([]byte("line\n"), lit...), lib.Stdout) {
+					c.Count("raw_output_texts_reproduced_by_the_library", 1)
+				} else {
+					// a text that is not valid UTF-8 does not survive the JSON input: the library's bytes decide
+					c.Count("raw_output_texts_altered_by_the_json_input", 1)
+					stream = wantOut
+				}
+			}
+			if !bytes.Equal(stream, wantOut) {
+				infra("C14: the model's byte stream and its token sequence disagree for %s", r.Key)
+			}
+		}
 		if !bytes.Equal(wantOut, r.Res.Stdout) {
 			c.Violation("cli-stdout", rep)
 			continue
@@ -760,7 +846,9 @@ func checkC14(c *Ctx) {
 			if bf := byKey[base+"|bf"]; bf != nil {
 				same("r-beginfile", r, bf, true)
 			}
-			if f0 := byKey[base+"|f0"]; f0 != nil {
+			if f0 := byKey[base+"|f0"]; f0 != nil && cfg.Same {
+				concat("files-00", r, f0, f0)
+			} else if f0 != nil {
 				f1, f10 := byKey[base+"|f1"], byKey[base+"|f10"]
 				concat("files-01", r, f0, f1)
 				concat("files-10", f10, f1, f0)
@@ -816,5 +904,5 @@ func checkC14(c *Ctx) {
 	c.Count("library_runs", int64(len(libJobs)))
 	c.Set("exhaustive", true)
 	c.Set("rule", "one case per (command-line shape, triple, variant) run on the binary and compared with the model's row for the library's result on the same program, selectors and bytes; all are non-trivial; distinct by (shape, triple, variant)")
-	c.Set("checker_cmd", "tlc MC_Cli (243 command-line shapes x 3 library results) -> out/bin/jqawk vs lang.EvalProgram + GetRootJson")
+	c.Set("checker_cmd", "tlc MC_Cli (324 command-line shapes x 3 library results) -> out/bin/jqawk vs lang.EvalProgram + GetRootJson")
 }
